@@ -235,6 +235,53 @@ def replay_choice_mutation(p):
     return {"reproduced": changed, "expected": "arguments unchanged", "observed": "after the call: %r %r; %s" % (args, kwargs, show(o))}
 
 
+@register("choice_scheme")
+def replay_choice_scheme(p):
+    """deterministic_choice(id, population, ...) against the published scheme: position = first 32 bits of
+    MD5(UTF-8(id)), item = the one whose running-total interval holds position/2^32 * total (one grid point of
+    tolerance at a boundary); 25 calls, all inside the allowed set"""
+    from pyab_experiment.binning import binning
+    from vf.ref import scheme
+    args = [dec(a) for a in p["args"]]
+    kwargs = {k: dec(v) for k, v in p["kwargs"].items()}
+    uid, pop = args[0], list(args[1])
+    if len(args) > 2:
+        weights = list(args[2])
+    elif kwargs.get("weights") is not None:
+        weights = list(kwargs["weights"])
+    elif kwargs.get("cum_weights") is not None:
+        cw = list(kwargs["cum_weights"])
+        weights = [cw[0]] + [b - a for a, b in zip(cw, cw[1:])]
+    else:
+        weights = [1] * len(pop)
+    k = scheme.py_position_k(uid)
+    allowed = {scheme.py_select(kk, weights) for kk in (max(k - 1, 0), k, min(k + 1, 2 ** 32 - 1))}
+    seen = []
+    bad = []
+    for _ in range(25):
+        o = outcome_of(lambda: binning.deterministic_choice(*args, **kwargs))
+        if show(o) not in seen:
+            seen.append(show(o))
+        if not (o[0] == "value" and any(o[1] == pop[i] for i in allowed)):
+            bad.append(show(o))
+    return {"reproduced": bool(bad) or len(seen) > 1, "expected": "population index in %s on every call" % sorted(allowed),
+            "observed": "results %s" % seen[:4]}
+
+
+@register("choice_repeat")
+def replay_choice_repeat(p):
+    """with an id the choice is a function of its arguments: 200 calls, one result"""
+    from pyab_experiment.binning import binning
+    args = [dec(a) for a in p["args"]]
+    kwargs = {k: dec(v) for k, v in p["kwargs"].items()}
+    seen = []
+    for _ in range(200):
+        o = show(outcome_of(lambda: binning.deterministic_choice(*args, **kwargs)))
+        if o not in seen:
+            seen.append(o)
+    return {"reproduced": len(seen) > 1, "expected": "one result", "observed": "%d different results: %s" % (len(seen), seen[:4])}
+
+
 @register("random_forward")
 def replay_random_forward(p):
     """input_id=None must behave as random.choices(population, weights, cum_weights=..., k=1)[0]"""
